@@ -82,7 +82,13 @@ LONGBASE = "/".join(["L" * 200 + str(i) for i in range(6)])  # selectors of > 10
 BASES = ["t", "forms.ask", ".cache-2019", "deep/nest~/d", "", LONGBASE]  # "" = the document root itself
 
 
-def _check_dir(names, handler, extra_files=None, hidden=(), check_retrieval=True, all_perms=True, max_perms=None, base="t", must_list=(), must_not_list=()):
+# administrators extend the pattern: alternatives containing a literal blank, a '#', a character class with a blank
+SHIPPED_PATT = None
+IGNORE_VARIANTS = [r"|/Old Stuff$", r"|/#[^/]*#$", r"|/[# ]tmp$", r"|\.bak$|/core$"]
+VARIANT_POOL = ["Old Stuff", "OldStuff", "#auto#", "x#y", "a#", " tmp", "#tmp", "xtmp", "n.bak", "core", "score", "plain.txt"]
+
+
+def _check_dir(names, handler, extra_files=None, hidden=(), check_retrieval=True, all_perms=True, max_perms=None, base="t", must_list=(), must_not_list=(), patt_extra=None):
     """Build /t with `names`, list it under every permutation. -> list of (class, detail)"""
     global _perm, _perm_sel
     _patch()
@@ -96,7 +102,11 @@ def _check_dir(names, handler, extra_files=None, hidden=(), check_retrieval=True
     for comp in reversed([c for c in base.split("/") if c]):
         tree = {comp: tree}
     sel = "/" + base if base else ""
-    w = rig.World(tree, handlers=("default" if handler == "umn" else DIRLIST), cachetime=0, tag="c07")
+    over = {}
+    if patt_extra is not None:
+        shipped = rig.make_config("/nonexistent").get("handlers.dir.DirHandler", "ignorepatt")
+        over["handlers_DOT_dir_DOT_DirHandler__ignorepatt"] = shipped + patt_extra
+    w = rig.World(tree, handlers=("default" if handler == "umn" else DIRLIST), cachetime=0, tag="c07", **over)
     bad = []
     nperm = 0
     try:
@@ -191,9 +201,10 @@ def _shard(shard, seed, tier):
         if item[0] == "subset":
             _, handler, names = item[:3]
             base = item[3] if len(item) > 3 else "t"
-            bad, nperm = _check_dir(list(names), handler, base=base)
-            label = "subset|%s|%s|%s" % (handler, base, ",".join(names))
-            case = {"kind": "subset", "handler": handler, "names": list(names), "base": base}
+            pe = IGNORE_VARIANTS[item[4]] if len(item) > 4 else None
+            bad, nperm = _check_dir(list(names), handler, base=base, patt_extra=pe)
+            label = "subset|%s|%s|%s%s" % (handler, base, ",".join(names), "|patt+%s" % pe if pe else "")
+            case = {"kind": "subset", "handler": handler, "names": list(names), "base": base, "patt": item[4] if len(item) > 4 else None}
         else:
             _, handler, i = item
             files, why = CURATED[i][:2]
@@ -217,7 +228,7 @@ def _shard(shard, seed, tier):
 
 def replay(case):
     if case["kind"] == "subset":
-        bad, _ = _check_dir(case["names"], case["handler"], base=case.get("base", "t"))
+        bad, _ = _check_dir(case["names"], case["handler"], base=case.get("base", "t"), patt_extra=IGNORE_VARIANTS[case["patt"]] if case.get("patt") is not None else None)
     else:
         exp = CURATED[case["i"]][2] if len(CURATED[case["i"]]) > 2 and case["handler"] == "umn" else {}
         bad, _ = _check_dir([], case["handler"], extra_files=CURATED[case["i"]][0], check_retrieval=False, **exp)
@@ -243,6 +254,10 @@ def run(ck):
                     items.append(("subset", handler, names, base))
         for i in range(len(CURATED)):
             items.append(("curated", handler, i))
+        for pi in range(len(IGNORE_VARIANTS)):
+            for n in (1, 2):
+                for names in itertools.combinations(VARIANT_POOL, n):
+                    items.append(("subset", handler, names, "t", pi))
     if ck.seed:
         import random
 
